@@ -1,5 +1,5 @@
 """Worker on the real code for C04 (template part).  stdin: JSON lines
-{"id", "page": text, "db": {name: text}, "limit": int?}; stdout: one JSON line per case
+{"id", "page": text, "db": {name: text}, "limit": int?, "cpu_limit": seconds?}; stdout: one JSON line per case
 {"id", "page_node": dump, "tpl_nodes": {name: dump}, "out": text | null, "exc": "Type: msg" | null}
 or {"id", "crash": "signal N"} when the interpreter died on that case.
 Cases are processed in forked children so that a crash (SIGSEGV in the Cython modules) only loses one case."""
@@ -26,6 +26,17 @@ except Exception:
 
 class Unsupported(Exception):
     pass
+
+
+class CpuTimeout(BaseException):
+    """per-case CPU budget exhausted (BaseException: no handler of the library may swallow it)"""
+
+
+def _on_vtalrm(signum, frame):
+    raise CpuTimeout()
+
+
+CASE_CPU_LIMIT = 20.0      # seconds of CPU per case unless the case says otherwise ("cpu_limit")
 
 
 def cps(s):
@@ -106,12 +117,19 @@ def run_case(case):
         arg_flags(p, flags)
     res["flags"] = sorted(flags)
     sys.stdout.write("")  # keep buffers in a known state before the risky call
+    lim = float(case.get("cpu_limit") or CASE_CPU_LIMIT)
     try:
-        out = e.expandTemplates()
+        signal.setitimer(signal.ITIMER_VIRTUAL, lim)
+        try:
+            out = e.expandTemplates()
+        finally:
+            signal.setitimer(signal.ITIMER_VIRTUAL, 0)
         if not isinstance(out, str):
             res["out"], res["exc"] = None, "not a str: %r" % type(out)
         else:
             res["out"], res["exc"] = out, None
+    except CpuTimeout:
+        res["out"], res["exc"] = None, "Timeout: no result after %.0fs CPU" % lim
     except BaseException as err:  # noqa: BLE001
         res["out"], res["exc"] = None, ("%s: %s" % (type(err).__name__, err))[:300]
     return res
@@ -174,4 +192,5 @@ def main():
 
 if __name__ == "__main__":
     signal.signal(signal.SIGPIPE, signal.SIG_DFL)
+    signal.signal(signal.SIGVTALRM, _on_vtalrm)
     main()
